@@ -32,6 +32,8 @@ type C13Scenario struct {
 	Reentrant  bool       `json:"reentrant,omitempty"` // the error handler publishes an alert event on the same bus
 	BySetter   bool       `json:"by_setter,omitempty"` // the error handler is installed with SetPersistenceErrorHandler after New
 	StoreLast  bool       `json:"store_last,omitempty"` // WithStore is the last option instead of the first
+	// PubDeadline: every publish carries a context with its own deadline, far later than the persistence timeout
+	PubDeadline bool `json:"pub_deadline,omitempty"`
 	TimeoutMs  int        `json:"timeout_ms,omitempty"`
 	Obs        bool       `json:"obs,omitempty"`
 	Handlers   []SubOpts  `json:"handlers"`
@@ -70,6 +72,7 @@ func genC13(rt *rapid.T) core.Scenario {
 	sc.Obs = rapid.IntRange(0, 3).Draw(rt, "obs") == 3
 	sc.BySetter = sc.ErrHandler && rapid.IntRange(0, 2).Draw(rt, "bySetter") == 2
 	sc.StoreLast = rapid.IntRange(0, 2).Draw(rt, "storeLast") == 2
+	sc.PubDeadline = rapid.IntRange(0, 2).Draw(rt, "pubDeadline") == 2
 	nh := rapid.IntRange(1, 3).Draw(rt, "nHandlers")
 	for i := 0; i < nh; i++ {
 		sc.Handlers = append(sc.Handlers, SubOpts{Async: rapid.IntRange(0, 2).Draw(rt, "async") == 2, Seq: rapid.IntRange(0, 3).Draw(rt, "seq") == 3, Once: rapid.IntRange(0, 5).Draw(rt, "once") == 5})
@@ -207,6 +210,14 @@ func (sc *C13Scenario) Execute(t *testing.T) *core.Outcome {
 			tasks = append(tasks, simrt.GoNamed(fmt.Sprintf("pub%d", pi), func() {
 				for _, p := range l {
 					rec.Add("pub", p.ID, p.Bad, "")
+					ctx := ctx
+					if sc.PubDeadline {
+						// never cancelled: asynchronous handlers may start after the publish returns
+						// (the 10 s timer lives on the bubble's fake clock)
+						c, cancel := context.WithTimeout(ctx, 10*time.Second)
+						_ = cancel
+						ctx = c
+					}
 					start := time.Now()
 					if p.Bad == 4 {
 						// a json.RawMessage that is not valid JSON has no JSON encoding either (json.Marshal validates it)
